@@ -2216,12 +2216,13 @@ func (dsc *dataStoreCommand) fieldAddFloat(keyName, fieldName string, delta floa
 			ve = VALUE_OVERFLOW
 			return
 		}
-		dsc.modifiedUnlocked(keyName)
 		ve = VALUE_EXISTS
 	} else {
 		ve = VALUE_DOESNT_EXIST
 	}
 
+	// a new field changes the hash as much as a new value of an old one
+	dsc.modifiedUnlocked(keyName)
 	m.store(fieldName, strconv.FormatFloat(value, 'f', -1, 64))
 	return
 }
